@@ -196,9 +196,9 @@ Proof.
   apply get_field_length in E2. cbn [length]. lia.
 Qed.
 
-Lemma dec_chan_ext bs c r t : dec_chan bs = Some (c, r) -> dec_chan (bs ++ t) = Some (c, r ++ t).
+Lemma dec_chan_header_ext bs h r t : dec_chan_header bs = Some (h, r) -> dec_chan_header (bs ++ t) = Some (h, r ++ t).
 Proof.
-  unfold dec_chan.
+  unfold dec_chan_header.
   destruct (get_field _ bs) as [[key r1]|] eqn:E1; [|discriminate]. rewrite (get_field_ext _ _ _ _ t E1).
   destruct (get_field _ r1) as [[id r2]|] eqn:E2; [|discriminate]. rewrite (get_field_ext _ _ _ _ t E2).
   destruct r2 as [|ty r3]; [discriminate|]. cbn [app].
@@ -209,16 +209,12 @@ Proof.
   rewrite (bounded_ext nsys r5 t (bounded nsys r5) eq_refl) by lia.
   rewrite (dec_sys_list_ext _ _ _ _ t E6).
   destruct (get_uvarint r6) as [[cnt r7]|] eqn:E7; [|discriminate]. rewrite (get_uvarint_ext _ _ _ t E7).
-  destruct (dec_row_list (bounded cnt r7) r7) as [[rows r8]|] eqn:E8; [|discriminate].
-  pose proof (dec_row_list_length _ _ _ _ E8) as [_ L8].
-  rewrite (bounded_ext cnt r7 t (bounded cnt r7) eq_refl) by lia.
-  rewrite (dec_row_list_ext _ _ _ _ t E8).
   intro H. inversion H; subst. reflexivity.
 Qed.
 
-Lemma dec_chan_length bs c r : dec_chan bs = Some (c, r) -> (length r < length bs)%nat.
+Lemma dec_chan_header_length bs h r : dec_chan_header bs = Some (h, r) -> (length r < length bs)%nat.
 Proof.
-  unfold dec_chan.
+  unfold dec_chan_header.
   destruct (get_field _ bs) as [[key r1]|] eqn:E1; [|discriminate].
   destruct (get_field _ r1) as [[id r2]|] eqn:E2; [|discriminate].
   destruct r2 as [|ty r3]; [discriminate|].
@@ -226,11 +222,30 @@ Proof.
   destruct (get_uvarint r4) as [[nsys r5]|] eqn:E5; [|discriminate].
   destruct (dec_sys_list (bounded nsys r5) r5) as [[sys r6]|] eqn:E6; [|discriminate].
   destruct (get_uvarint r6) as [[cnt r7]|] eqn:E7; [|discriminate].
-  destruct (dec_row_list (bounded cnt r7) r7) as [[rows r8]|] eqn:E8; [|discriminate].
   intro H. inversion H; subst.
   apply get_field_length in E1. apply get_field_length in E2. apply take_length in E4.
   apply get_uvarint_length in E5. apply get_uvarint_length in E7.
-  apply dec_sys_list_length in E6. apply dec_row_list_length in E8. cbn [length] in *. lia.
+  apply dec_sys_list_length in E6. cbn [length] in *. lia.
+Qed.
+
+Lemma dec_chan_ext bs c r t : dec_chan bs = Some (c, r) -> dec_chan (bs ++ t) = Some (c, r ++ t).
+Proof.
+  unfold dec_chan.
+  destruct (dec_chan_header bs) as [[h r7]|] eqn:E1; [|discriminate]. rewrite (dec_chan_header_ext _ _ _ t E1).
+  destruct (dec_row_list (bounded (rc_count h) r7) r7) as [[rows r8]|] eqn:E8; [|discriminate].
+  pose proof (dec_row_list_length _ _ _ _ E8) as [_ L8].
+  rewrite (bounded_ext (rc_count h) r7 t (bounded (rc_count h) r7) eq_refl) by lia.
+  rewrite (dec_row_list_ext _ _ _ _ t E8).
+  intro H. inversion H; subst. reflexivity.
+Qed.
+
+Lemma dec_chan_length bs c r : dec_chan bs = Some (c, r) -> (length r < length bs)%nat.
+Proof.
+  unfold dec_chan.
+  destruct (dec_chan_header bs) as [[h r7]|] eqn:E1; [|discriminate].
+  destruct (dec_row_list (bounded (rc_count h) r7) r7) as [[rows r8]|] eqn:E8; [|discriminate].
+  intro H. inversion H; subst.
+  apply dec_chan_header_length in E1. apply dec_row_list_length in E8. lia.
 Qed.
 
 Lemma dec_chan_list_ext : forall n bs l r t,
